@@ -466,6 +466,8 @@ def struct_eq(m, a, b, depth=0):
         return len(a.items) == len(b.items) and all(struct_eq(m, x, y, depth + 1) for x, y in zip(a.items, b.items))
     if isinstance(a, Opaque):
         return a.kind == b.kind
+    if isinstance(a, FnItem):
+        return a.name == b.name
     return a is b
 
 
